@@ -336,6 +336,14 @@ def _fd_cases(ctx):
                 for has_v in (False, True):
                     for copy in (True, False):
                         cases.append((mask, has_m, has_s, has_v, copy, extras[(mask + has_m + 2 * has_s + has_v) % 3], 'dataset'))
+    # several code-value attributes of which all but one (or all) are PRESENT BUT EMPTY ('' / None in memory / zero-length after
+    # a bytes round trip): still not exactly one code; and a single attribute that is present but empty
+    for mask in (3, 5, 6, 7, 1, 2, 4):
+        nbits = bin(mask).count('1')
+        for variant in ('str', 'none', 'rt'):
+            for keep in (list(range(nbits)) + [-1] if nbits > 1 else [-1]):
+                for copy in (True, False):
+                    cases.append((mask, True, True, (mask + keep) % 2 == 0, copy, None, f'dataset-empty:{variant}:{keep}'))
     for copy in (True, False):
         cases.append((1, True, True, False, copy, None, 'concept'))
         cases.append((4, True, True, True, copy, None, 'concept'))
@@ -362,9 +370,18 @@ def _build_fd_input(c):
         kw = [k for i, k in enumerate(CODE_KWS) if mask >> i & 1][0]
         return CodedConcept(vals[kw], 'SCT', 'Brain', '2020' if has_v else None)
     ds = Dataset()
+    empty = None
+    if kind.startswith('dataset-empty'):
+        _, variant, keep = kind.split(':')
+        empty = (variant, int(keep))
+    j = 0
     for i, k in enumerate(CODE_KWS):
         if mask >> i & 1:
-            setattr(ds, k, vals[k])
+            if empty is not None and j != empty[1]:
+                setattr(ds, k, None if empty[0] == 'none' else '')
+            else:
+                setattr(ds, k, vals[k])
+            j += 1
     if has_m:
         ds.CodeMeaning = 'Brain'
     if has_s:
@@ -373,6 +390,15 @@ def _build_fd_input(c):
         ds.CodingSchemeVersion = '2020'
     if extra:
         setattr(ds, extra[0], extra[1])
+    if empty is not None and empty[0] == 'rt':
+        import io as _io
+        import pydicom
+        outer = Dataset()
+        outer.ConceptNameCodeSequence = [ds]
+        buf = _io.BytesIO()
+        pydicom.dcmwrite(buf, outer, implicit_vr=True, little_endian=True)
+        buf.seek(0)
+        ds = pydicom.dcmread(buf, force=True).ConceptNameCodeSequence[0]
     return ds
 
 
@@ -393,12 +419,14 @@ def _from_dataset(ctx, reqs, pending, only=None):
         want_ok = is_ds and n_codes == 1 and has_m and has_s
         ctx.case(sample=case if (want_ok and mask == 2 and copy) else None,
                  nontrivial_key=('fd', mask, has_m, has_s, has_v, copy, kind),
-                 fd_codes=n_codes, fd_input=kind, fd_copy=copy, fd_outcome=(st if st == 'ok' else res))
+                 fd_codes=n_codes, fd_input=kind.split(':')[0] + (':' + kind.split(':')[1] if ':' in kind else ''), fd_copy=copy, fd_outcome=(st if st == 'ok' else res))
         if (st == 'ok') != want_ok:
             ctx.fail(case, f'from_dataset {"accepted" if st == "ok" else "refused (" + str(res) + ")"} a dataset with {n_codes} code value '
                            f'attribute(s), meaning={has_m}, scheme={has_s}, input kind {kind}', site='fd-accept')
         if is_ds:
             cls_name = 'concept' if isinstance(inp, CodedConcept) and kind == 'concept' else 'dataset'
+            if kind.startswith('dataset-empty') and sorted(k for k in CODE_KWS if k in inp) != sorted(k for i, k in enumerate(CODE_KWS) if mask >> i & 1):
+                ctx.note(f'generator: empty attribute lost in {kind}')
             reqs.append(('fromDataset', {'cls': cls_name, 'ds': before, 'copy': copy}))
         else:
             reqs.append(('fromDataset', {'cls': 'other', 'ds': [], 'copy': copy}))
